@@ -226,7 +226,27 @@ impl<'a> LoweringManager<'a> {
             }
           })
           .collect_vec();
-        let statements = self.lower_stmt_block(statements);
+        let mut statements = self.lower_stmt_block(statements);
+        // Loop variables are assigned one after another at the end of an iteration by both backends,
+        // while loop values denote the values of this iteration (parallel assignment). A loop value
+        // that reads a loop variable assigned earlier in that sequence (e.g. `f(b, a)` in a tail call)
+        // is therefore saved into a temporary first.
+        let mut loop_variables = loop_variables;
+        for j in 0..loop_variables.len() {
+          let reads_earlier = match &loop_variables[j].loop_value {
+            lir::Expression::Variable(n, _) => loop_variables[..j].iter().any(|v| v.name == *n),
+            _ => false,
+          };
+          if reads_earlier {
+            let temp = self.heap.alloc_temp_str();
+            let type_ = loop_variables[j].type_.clone();
+            let value = std::mem::replace(
+              &mut loop_variables[j].loop_value,
+              lir::Expression::Variable(temp, type_.clone()),
+            );
+            statements.push(lir::Statement::Cast { name: temp, type_, assigned_expression: value });
+          }
+        }
         let break_collector = if let Some(mir::VariableName { name, type_ }) = break_collector {
           Some((name, self.lower_type(type_)))
         } else {
